@@ -1,6 +1,7 @@
 package gen
 
 import (
+	"strconv"
 	"math/big"
 	"sort"
 	"strings"
@@ -164,13 +165,19 @@ func (g *G) tx(v *view, check bool) script.Tx {
 	}
 	msgs = append(msgs, first)
 	signer := signerOf(first)
+	several := false // messages of several signers: every one of them must sign, the first one pays the fee
 	if g.chance(g.w.multiPct) && signer >= 0 {
+		several = g.chance(30)
 		for extra := 1 + g.rng.Intn(3); extra > 0; extra-- {
 			k := g.kind()
-			if aware && !g.feasible(k, v, signer) {
+			who := signer
+			if several {
+				who = -1
+			}
+			if aware && !g.feasible(k, v, who) {
 				k = g.pick(anyone...)
 			}
-			msgs = append(msgs, g.msg(k, v, aware, signer, 0))
+			msgs = append(msgs, g.msg(k, v, aware, who, 0))
 		}
 	}
 	if g.w.scramble > 0 && g.chance(g.w.scramble) { // signer focus: anybody signs, anybody is named
@@ -193,6 +200,30 @@ func (g *G) tx(v *view, check bool) script.Tx {
 		key = g.anyAcct()
 	}
 	t := script.Tx{N: g.next(), Signers: []string{A(key)}, Granter: "-", Sig: "ok", Msgs: msgs}
+	if several {
+		var req []string
+		seen := map[int]bool{}
+		for _, m := range msgs {
+			if i := signerOf(m); i >= 0 && !seen[i] {
+				seen[i] = true
+				req = append(req, A(i))
+			}
+		}
+		if len(req) > 0 {
+			switch x := g.rng.Intn(100); {
+			case x < 85:
+			case x < 90 && len(req) > 1:
+				req = req[:len(req)-1] // one signature missing
+			case x < 95 && len(req) > 1:
+				req[0], req[1] = req[1], req[0] // wrong order: another account in the fee payer's place
+			default:
+				req = append(req, A(g.anyAcct())) // one signature too many
+			}
+			t.Signers = req
+			key, _ = strconv.Atoi(req[0][1:])
+			g.st.MsgsPerTx["several-signers"]++
+		}
+	}
 	t.Fee = g.feeToken(v, msgs)
 	for _, fg := range v.feegrants {
 		if fg[1] == key && g.chance(g.w.granterPct) {
